@@ -13,7 +13,7 @@ PROPS = {
     "C07": {"PoolCap"},
     "C08": {"MultiInRangeOrdered", "MultiAllOrNothing"},
     "C09": {"NoReservedOrUnconfiguredHandedOut", "ReservedNotAllocated"},
-    "C10": {"CloudSingleNode", "LiveAssignedToOwnNode", "UnassignBeforeHandover"},
+    "C10": {"CloudSingleNode", "LiveAssignedToOwnNode", "LiveStaysAssigned", "UnassignBeforeHandover"},
     "C18": {"NoPanic", "NoHang"},
 }
 # which scenario families a property draws its traces from (its own first)
